@@ -334,6 +334,24 @@ def run(ctx):
             if mr != ('ok', codec.canon(v)):
                 ctx.violation('correspondence-broken', 'scalar %r: model %r, implementation %r' % (t, mr, codec.canon(v)), {'component': 'jparse_str', 'scalar': t})
                 corr = True
+    # one date-time per mapped zone name: every label must be read back as that zone
+    import datetime as _dt
+    import pytz as _pytz
+    from hszinc import zoneinfo as _zi
+    for _zn, _olson in _zi.get_tz_map().items():
+        _tz = _pytz.timezone(_olson)
+        _v = _pytz.utc.localize(_dt.datetime(rng.choice([1999, 2012, 2024]), rng.randint(1, 12), rng.randint(1, 28), rng.randint(2, 21), rng.randint(0, 59), rng.randint(0, 59))).astimezone(_tz)
+        _t = 't:%s %s' % (_v.isoformat(), _zn)
+        ctx.coverage['evaluations'] += 1
+        ctx.count('zone-label-sweep')
+        try:
+            _b = h.parse_scalar(json.dumps(_t), mode=h.MODE_JSON)
+        except Exception as e:  # noqa
+            ctx.violation('impl-counterexample', 'the scalar %r was rejected with %s' % (_t, type(e).__name__), {'scalar': _t})
+            return
+        if _b != _v or _b.utcoffset() != _v.utcoffset() or getattr(_b.tzinfo, 'zone', None) != _olson:
+            ctx.violation('impl-counterexample', 'the scalar %r was decoded as %s in zone %s, it denotes %s in %s' % (_t, _b.isoformat(), getattr(_b.tzinfo, 'zone', None), _v.isoformat(), _olson), {'scalar': _t})
+            return
     ctx.sample({'document': sorted(seen, key=len)[len(seen) // 2][:1500]})
     ctx.coverage['distinct_nontrivial'] = len(seen) + len(set(t for t, _ in scal))
 
